@@ -205,6 +205,10 @@ pub fn run_history(pop: &Pop, history: &[RefMsg]) -> Option<(usize, Vec<(&'stati
 fn report(pop: &Pop, history: &[RefMsg], bad: &[(&'static str, String)], rep: &mut Report) {
     for (class, what) in bad {
         let cls = *class;
+        if !rep.wants_violation(MON, cls) && crate::util::KNOWN.get().map(|k| k.is_empty()).unwrap_or(true) {
+            rep.count(&format!("violations_raised/{}/{}", MON, cls));
+            continue;
+        }
         let small = vsx::shrink(history, &|h| matches!(run_history(pop, h), Some((_, b)) if b.iter().any(|(c, _)| *c == cls)));
         let what_small = run_history(pop, &small).and_then(|(_, b)| b.into_iter().find(|(c, _)| *c == cls).map(|(_, w)| w)).unwrap_or_else(|| what.clone());
         rep.violation(
